@@ -7,7 +7,7 @@ namespace TfelVerif.C28
 
 /-- quadratic form `xᵀ M x` of an 4x4 row-major list -/
 def quad4 {K : Type} [Field K] : List K → List K → K
-  | [m00, m01, m02, m03, m10, m11, m12, m13, m20, m21, m22, m23, m30, m31, m32, m33], [x0, x1, x2, x3] =>
+  | (m00 :: m01 :: m02 :: m03 :: m10 :: m11 :: m12 :: m13 :: m20 :: m21 :: m22 :: m23 :: m30 :: m31 :: m32 :: m33 :: []), [x0, x1, x2, x3] =>
       x0 * m00 * x0 + x0 * m01 * x1 + x0 * m02 * x2 + x0 * m03 * x3 +
       x1 * m10 * x0 + x1 * m11 * x1 + x1 * m12 * x2 + x1 * m13 * x3 +
       x2 * m20 * x0 + x2 * m21 * x1 + x2 * m22 * x2 + x2 * m23 * x3 +
@@ -16,7 +16,7 @@ def quad4 {K : Type} [Field K] : List K → List K → K
 
 /-- quadratic form `xᵀ M x` of an 6x6 row-major list -/
 def quad6 {K : Type} [Field K] : List K → List K → K
-  | [m00, m01, m02, m03, m04, m05, m10, m11, m12, m13, m14, m15, m20, m21, m22, m23, m24, m25, m30, m31, m32, m33, m34, m35, m40, m41, m42, m43, m44, m45, m50, m51, m52, m53, m54, m55], [x0, x1, x2, x3, x4, x5] =>
+  | (m00 :: m01 :: m02 :: m03 :: m04 :: m05 :: m10 :: m11 :: m12 :: m13 :: m14 :: m15 :: m20 :: m21 :: m22 :: m23 :: m24 :: m25 :: m30 :: m31 :: m32 :: m33 :: m34 :: m35 :: m40 :: m41 :: m42 :: m43 :: m44 :: m45 :: m50 :: m51 :: m52 :: m53 :: m54 :: m55 :: []), [x0, x1, x2, x3, x4, x5] =>
       x0 * m00 * x0 + x0 * m01 * x1 + x0 * m02 * x2 + x0 * m03 * x3 + x0 * m04 * x4 + x0 * m05 * x5 +
       x1 * m10 * x0 + x1 * m11 * x1 + x1 * m12 * x2 + x1 * m13 * x3 + x1 * m14 * x4 + x1 * m15 * x5 +
       x2 * m20 * x0 + x2 * m21 * x1 + x2 * m22 * x2 + x2 * m23 * x3 + x2 * m24 * x4 + x2 * m25 * x5 +
